@@ -1,22 +1,19 @@
 /-
 C13 (farm slice) — the farm EndBlocker never aborts, handles each ending pool exactly once,
-and the active-pool queue mirrors the pools that have not ended.
-
-All statements are about states of the invariant bundle `Inv` (every state reached by a
-history without an operation of the F-farm-2 class, `Proofs.Farm.inv_run`); in the F-farm-2
-class the refund of the due pool fails after dequeuing (`due_not_handled_in_class`).
+and the active-pool queue mirrors the pools that have not ended.  All statements hold for every
+reachable state (`Inv`, `Proofs.Farm.inv_run`).
 -/
 import Irismod.Proofs.FarmWitness
 
 namespace Irismod.Props.C13Farm
 open Irismod Irismod.Sdk Irismod.Farm Irismod.Spec Irismod.Spec.C13Farm Irismod.Proofs.Farm
 
-/-- **queue hygiene**: along every history outside the F-farm-2 class every queue entry names
+/-- **queue hygiene**: along every history every queue entry names
 an existing pool at exactly its end height, never in the past; a pool has at most one entry;
 every pool whose end height lies ahead has its entry. -/
-theorem queue_ok_partial (s0 : State) (ops : List Op) (hg : C05.Genesis s0) (hh : 0 ≤ s0.height)
-    (hc : Clean s0 ops) : QueueOK (run s0 ops) :=
-  (inv_run ops s0 (inv_genesis hg hh) hc).core.queue
+theorem queue_ok_run (s0 : State) (ops : List Op) (hg : C05.Genesis s0) (hh : 0 ≤ s0.height) :
+    QueueOK (run s0 ops) :=
+  (inv_run ops s0 (inv_genesis hg hh)).core.queue
 
 /-- **totality**: in a state of the bundle the farm EndBlocker runs to completion — no
 rejection is left half-way, no panic — provided `rewardPerShare` of the pools due now stays
@@ -72,17 +69,12 @@ theorem handled_exactly_once (s s' : State) (hi : Inv s) (h : endBlocker s = .ok
   exact ⟨by omega, this.1⟩
 
 set_option maxRecDepth 100000 in
-/-- **in the F-farm-2 class the due pool is not handled**: after the F-farm-2 history the pool
-that was due at height 25 has left the queue but its `eth` rule has never been refunded. -/
-theorem due_not_handled_in_class : ¬ Handled (run w2Genesis w2Ops) 25 "farm-1" := by
-  rintro ⟨pf, hpf, _, hall⟩
-  have h1 : ((getPool (run w2Genesis w2Ops) "farm-1").map (fun p => p.rules.all (fun r => decide (r.nRefund ≥ 1)))) = some false := by
-    decide
-  rw [hpf] at h1
-  simp only [Option.map, Option.some.injEq] at h1
-  have : pf.rules.all (fun r => decide (r.nRefund ≥ 1)) = true := by
-    simp only [List.all_eq_true, decide_eq_true_eq]
-    intro r hr; exact (hall r hr).2
-  rw [this] at h1; cases h1
+/-- regression witness of the fixed finding F-farm-2: after the end-block top-up history the
+pool that was due (at height 15, the end height the repaired `AdjustPool` keeps) has been
+handled — every rule refunded exactly once, nothing left, queue empty. -/
+theorem end_topup_history_handled :
+    ((getPool (run w2Genesis w2Ops) "farm-1").map (fun p => (p.endH, p.rules.all (fun r => r.remaining == 0 && r.nRefund == 1)))) = some (15, true)
+    ∧ (run w2Genesis w2Ops).queue = [] := by
+  decide
 
 end Irismod.Props.C13Farm
